@@ -268,6 +268,15 @@ def _mirsym():
         ["engine::operators::dict_lookup::<impl VecOperator for InverseDictLookup>::execute"],
         bounds="sorted dictionaries {b}, {b,d}, {a,c,e} (+{ab,b} thorough); constants of 1 (quick) / 0-2 (thorough) symbolic bytes: present, absent below / between / above",
         spec=so.InverseDictLookupSpec(), stubs=stubs)
+    add("C03.b/encode_int", "C03", "mirsym", Q,
+        "Codec::encode_int translates a WHERE constant into the encoding domain of an offset-/narrow-encoded integer column such that all six comparisons on encoded values agree with the comparisons on decoded values, without panicking for constants far outside the column's range",
+        ["mem_store::codec::Codec::encode_int"], bounds="codecs [Add(T, y)] and [ToI64(T)] for T in {u8,u32} (quick) + u16 (thorough); all encoded values e: T, all offsets y with e + y representable, all i64 constants",
+        spec=so.EncodeIntSpec())
+    for pid, tag in (("C04", "C04.c"), ("C06", "C06.c")):
+        add(f"{tag}/aggregate_loops", pid, "mirsym", Q,
+            "Aggregate / AggregateNullable / CheckedAggregate / CheckedAggregateNullable ::execute (MAX, MIN, COUNT, checked SUM over i64 with u8 group ids): accumulator[k] == aggregate over exactly the (non-NULL) rows of group k from the aggregator's unit; nullable variants mark exactly the groups that received a value; checked SUM is exact or Err(Overflow)",
+            ["engine::operators::aggregate::<impl VecOperator for Aggregate|AggregateNullable|CheckedAggregate|CheckedAggregateNullable>::execute", "aggregate::{MaxI64,MinI64,Count,SumI64}"],
+            bounds="0 and 2 rows (quick) / 0-3 rows (thorough), 3 group ids; values, group ids and null-map bytes symbolic", spec=so.AggregateSpec(), stubs=stubs)
     add("C06.b/nullable_checked", "C06", "mirsym", Q,
         "NullableCheckedBinary{,VS,SV}Operator<i64,i64,i64,Op>::execute for Op in {+,-} (quick) + {*} (thorough): Err(Overflow) iff a present row overflows, a NULL row never raises, present rows carry the exact result",
         ["engine::operators::binary_operator::<impl VecOperator for NullableCheckedBinary*Operator>::execute", "numeric_operators::*::perform_checked"],
